@@ -107,3 +107,20 @@ Print Assumptions lz4_wrapper_refusal_is_safe.
 Theorem lz4_output_monotone : forall f src out out', spec_decode f src out = Some out' -> exists tail, out' = out ++ tail.
 Proof. exact output_monotone. Qed.
 Print Assumptions lz4_output_monotone.
+
+(** ** the wrapper: every body a conforming compressor sends is accepted and decoded to the content *)
+From CqlProxy Require Import Lib.Wire Proofs.Lz4Wrapper.
+Theorem c03_lz4_wrapper_accepts_every_valid_body : forall block out,
+  Forall is_byte block -> spec block = Some out -> out <> [] -> (N.of_nat (length out) < 4294967296)%N ->
+  wrapper (enc_u32 (N.of_nat (length out)) ++ block) = DOk out.
+Proof. exact wrapper_accepts_every_valid_body. Qed.
+Print Assumptions c03_lz4_wrapper_accepts_every_valid_body.
+
+Theorem c03_lz4_wrapper_never_panics : forall body, wrapper body <> DPanic.
+Proof. exact wrapper_never_panics. Qed.
+Print Assumptions c03_lz4_wrapper_never_panics.
+
+Theorem c03_lz4_wrapper_sound : forall body out, wrapper body = DOk out -> out <> [] ->
+  exists n block, read_u32 body = Some (n, block) /\ spec block = Some out /\ length out <= N.to_nat n.
+Proof. exact wrapper_sound. Qed.
+Print Assumptions c03_lz4_wrapper_sound.
